@@ -30,6 +30,12 @@ package regex
 //@ reglemma[C14] year-pattern-is-four-digits: equal(group(regex.CRSCopyrightYearRegex, 2), full(`[0-9]{4}`))
 
 // ---- C10: formatter and compiler agree on what a block start is (kind and arguments)
+// C16: whatever follows `##!>` and begins with a lower-case word is a processor start line for
+// the assembler, with that whole word as the processor name (so an unknown or misspelt name
+// reaches the name check of startPreprocessor instead of becoming literal text).
+//@ reglemma[C16] processor-start-recognises-every-name: equal(match(regex.ProcessorStartRegex), full(`##!>\s*[a-z].*`), lines)
+//@ reglemma[C16] processor-name-is-the-whole-word: equal(group(regex.ProcessorStartRegex, 1), full(`[a-z]+`))
+
 //@ reglemma[C10] block-start-kind: subset(match(regex.ProcessorBlockStartRegex), full(`##!>\s*(assemble|cmdline)(\s.*)?`), lines)
 // a comment (for the compiler) is never rewritten by a directive branch of the formatter
 //@ reglemma[C10] comment-not-directive: disjoint(match(regex.CommentRegex), or(match(regex.ProcessorBlockStartRegex), match(regex.ProcessorEndRegex), match(regex.FlagsRegex), match(regex.PrefixRegex), match(regex.SuffixRegex), match(regex.DefinitionRegex), match(regex.IncludeRegex), match(regex.IncludeExceptRegex)), lines)
